@@ -1302,3 +1302,80 @@ Section Twin.
       unfold alias_pass. apply fold_src_falsy; [apply (good_aliases T W)|apply (wf_rval T W)|exact Ha].
   Qed.
 End Twin.
+
+(* ================================================================== *)
+(* serialize_obj: by value, else by reference, else error               *)
+
+Section SerializeProofs.
+  Variables func blob wire res : Type.
+  Variable dumps_val dumps_ref : func -> option blob.
+  Variable loads : blob -> option func.
+  Variable ser_bson : envelope blob -> wire.
+  Variable deser_bson : wire -> option (envelope blob).
+  Variable call : func -> list atom -> kwargs -> res.
+
+  (* the decoded callable behaves like the original *)
+  Definition obs_eq (f f' : func) : Prop := forall a k, call f' a k = call f a k.
+
+  (* what is trusted of dill: whatever either attempt writes, loads reads back as a callable
+     that behaves like the original (by value: a copy; by reference: the named object) *)
+  Hypothesis val_sound : forall f b, dumps_val f = Some b -> exists f', loads b = Some f' /\ obs_eq f f'.
+  Hypothesis ref_sound : forall f b, dumps_ref f = Some b -> exists f', loads b = Some f' /\ obs_eq f f'.
+  Hypothesis bson_inverse : forall e, deser_bson (ser_bson e) = Some e.
+
+  Lemma serialize_error_iff f :
+    (exists e, serialize_obj func blob dumps_val dumps_ref f = inl e)
+    <-> dumps_val f = None /\ dumps_ref f = None.
+  Proof.
+    unfold serialize_obj. destruct (dumps_val f) as [b|]; [|destruct (dumps_ref f) as [b|]].
+    - split; [intros [e H]; discriminate|intros [H _]; discriminate].
+    - split; [intros [e H]; discriminate|intros [_ H]; discriminate].
+    - split; [intros _; split; reflexivity|intros _; exists SerError; reflexivity].
+  Qed.
+
+  Lemma serialize_error_kind f e :
+    serialize_obj func blob dumps_val dumps_ref f = inl e -> e = SerError.
+  Proof.
+    unfold serialize_obj. destruct (dumps_val f); [discriminate|].
+    destruct (dumps_ref f); [discriminate|]. intro H; injection H as <-; reflexivity.
+  Qed.
+
+  Lemma serialize_decodes f b :
+    serialize_obj func blob dumps_val dumps_ref f = inr b ->
+    exists f', loads b = Some f' /\ obs_eq f f'.
+  Proof.
+    unfold serialize_obj. destruct (dumps_val f) as [b1|] eqn:E1.
+    - intro H; injection H as <-. apply (val_sound _ _ E1).
+    - destruct (dumps_ref f) as [b2|] eqn:E2; [|discriminate].
+      intro H; injection H as <-. apply (ref_sound _ _ E2).
+  Qed.
+
+  (* transport of a callable: an error only if BOTH attempts fail (and then it is
+     SerializationError); any success decodes to the given arguments and a callable that
+     behaves like the original *)
+  Lemma transport_s_spec f args kw :
+    match transport_s func blob wire dumps_val dumps_ref loads ser_bson deser_bson true f args kw with
+    | inl e => e = SerError /\ dumps_val f = None /\ dumps_ref f = None
+    | inr (f', a', k') => a' = args /\ k' = Some (kw_or_empty kw) /\ obs_eq f f'
+    end.
+  Proof.
+    unfold transport_s, python_task_s.
+    destruct (serialize_obj func blob dumps_val dumps_ref f) as [e|b] eqn:E.
+    - split; [apply (serialize_error_kind _ _ E)|]. apply serialize_error_iff. exists e; exact E.
+    - destruct (serialize_decodes _ _ E) as (f' & Hl & Ho).
+      unfold get_func_attr. rewrite bson_inverse. simpl. rewrite Hl.
+      repeat split; [|exact Ho]. destruct kw as [[|x l]|]; reflexivity.
+  Qed.
+
+  Lemma transport_s_succeeds f args kw :
+    (dumps_val f <> None \/ dumps_ref f <> None) ->
+    exists f', transport_s func blob wire dumps_val dumps_ref loads ser_bson deser_bson true f args kw
+               = inr (f', args, Some (kw_or_empty kw)) /\ obs_eq f f'.
+  Proof.
+    intro H. pose proof (transport_s_spec f args kw) as S.
+    destruct (transport_s func blob wire dumps_val dumps_ref loads ser_bson deser_bson true f args kw)
+      as [e|[[f' a'] k']].
+    - destruct S as (_ & H1 & H2). destruct H as [H|H]; contradiction.
+    - destruct S as (-> & -> & Ho). exists f'; split; [reflexivity|exact Ho].
+  Qed.
+End SerializeProofs.
